@@ -431,8 +431,23 @@ def out_files_info(func, process_func):
         if isinstance(s, ast.If):
             t = ast.unparse(s.test)
             raises_fee = any(isinstance(x, ast.Raise) and 'FileExistsError' in ast.unparse(x) for x in ast.walk(s))
-            if 'overwrite' in t and '.exists()' in t and raises_fee and not s.orelse:
-                k = 'FParam' if 'param_filename' in t else 'FCorr'
+
+            def conjuncts(n):
+                return [c for v in n.values for c in conjuncts(v)] if isinstance(n, ast.BoolOp) and isinstance(n.op, ast.And) else [ast.unparse(n)]
+
+            def is_check(cs):
+                """`not overwrite`, `<file>.exists()` and at most the truth of <file> itself (an optional output): nothing that narrows the refusal"""
+                ex = [c for c in cs if c.endswith('.exists()')]
+                if len(ex) != 1 or 'not overwrite' not in cs:
+                    return None
+                name = ex[0][:-len('.exists()')]
+                if set(cs) - {'not overwrite', ex[0], name, f'{name} is not None'}:
+                    return None
+                return 'FParam' if 'param_filename' in name else 'FCorr'
+            if 'overwrite' in t and '.exists()' in t and raises_fee and not s.orelse and all(isinstance(m_, ast.Raise) for m_ in s.body):
+                k = is_check(conjuncts(s.test))
+                if k is None:
+                    raise TranslatorError(f'_out_files: the overwrite check at line {s.lineno} tests more than `not overwrite and <file>.exists()`: {t[:120]}')
                 entry.append(f'FCheck {k}')
                 continue
             # ... or the same checks under a shared outer test: `if not overwrite: if a.exists(): raise ..; if b and b.exists(): raise ..`
@@ -451,7 +466,10 @@ def out_files_info(func, process_func):
                 return found
             chk = only_checks(s, [t]) if not s.orelse else None
             if chk and all('overwrite' in c and '.exists()' in c for c in chk):
-                entry.extend(f"FCheck {'FParam' if 'param_filename' in c else 'FCorr'}" for c in chk)
+                kinds = [is_check(conjuncts(ast.parse(c, mode='eval').body)) for c in chk]
+                if any(k_ is None for k_ in kinds):
+                    raise TranslatorError(f'_out_files: an overwrite check at line {s.lineno} tests more than `not overwrite and <file>.exists()`')
+                entry.extend(f'FCheck {k_}' for k_ in kinds)
                 continue
             opens = [a for a in ast.walk(s) if isinstance(a, ast.Assign) and '.open(' in ast.unparse(a.value)]
             others = [a for a in ast.walk(s) if isinstance(a, (ast.Raise, ast.Try, ast.With, ast.For, ast.While, ast.Return))]
